@@ -114,6 +114,43 @@ impl Elems for PlainElems {
     }
 }
 
+/// keys with drop glue, values without (and the other way round): the map decides per type
+/// whether it has to run destructors
+pub struct KeyDropsElems;
+impl Elems for KeyDropsElems {
+    type Key = CKey;
+    type Val = PVal;
+    fn key(log: &Rc<DropLog>, k: K) -> CKey {
+        CKey { k, t: log.make(0) }
+    }
+    fn val(_log: &Rc<DropLog>, tag: u64) -> PVal {
+        PVal(tag)
+    }
+    fn k_of(k: &CKey) -> K {
+        k.k
+    }
+    fn tag_of(v: &PVal) -> u64 {
+        v.0
+    }
+}
+pub struct ValDropsElems;
+impl Elems for ValDropsElems {
+    type Key = PKey;
+    type Val = Tracked;
+    fn key(_log: &Rc<DropLog>, k: K) -> PKey {
+        PKey(k)
+    }
+    fn val(log: &Rc<DropLog>, tag: u64) -> Tracked {
+        log.make(tag)
+    }
+    fn k_of(k: &PKey) -> K {
+        k.0
+    }
+    fn tag_of(v: &Tracked) -> u64 {
+        v.tag
+    }
+}
+
 #[derive(Clone, Debug, Serialize, Deserialize, PartialEq)]
 pub enum Op {
     Insert(K, u64),
@@ -609,6 +646,14 @@ fn first_fail_plain(h: &History, fail_at: Option<u64>) -> Option<(Value, String)
     })
 }
 
+fn first_fail_mixed(h: &History, which: &str) -> Option<(Value, String)> {
+    let r = if which == "key-drops" { first_fail_fault_e::<KeyDropsElems>(h, None) } else { first_fail_fault_e::<ValDropsElems>(h, None) };
+    r.map(|(mut sig, what)| {
+        sig["elements"] = json!(which);
+        (sig, format!("(elements: {which}) {what}"))
+    })
+}
+
 fn first_fail_fault_e<E: Elems>(h: &History, fail_at: Option<u64>) -> Option<(Value, String)> {
     let (info, errs, fired, outstanding) = run_fault_e::<E>(h, fail_at);
     let fault = fail_at.is_some() && fired > 0;
@@ -672,6 +717,7 @@ fn report(ctx: &mut CaseCtx, h: &History, alloc: &str, fail_at: Option<u64>, sig
 fn run_other(h: &History, alloc: &str) -> Option<(Value, String)> {
     match alloc {
         "plain" => first_fail_plain(h, None),
+        "key-drops" | "val-drops" => first_fail_mixed(h, alloc),
         "sys" => {
             let info = run_history::<TrackedElems, _>(h, SysAllocator, &|| 0, &|| 0);
             info.fail.as_ref().map(|f| (sig_of(f, false), format!("{} #{}: {} ({})", f.op, f.op_index, f.diverged, f.detail)))
@@ -762,7 +808,7 @@ fn exec_all(ctx: &mut CaseCtx, h: &History, hash: u64) {
             ctx.count("fault:alloc_fail_fired_plain_elements", 1);
         }
     }
-    for alloc in ["sys", "vm"] {
+    for alloc in ["sys", "vm", "key-drops", "val-drops"] {
         ctx.progress(&format!("run {alloc}"));
         ctx.evaluation();
         if let Some((sig, what)) = run_other(h, alloc) {
